@@ -1,3 +1,36 @@
-// unit context: harnesses for sdk/src/context.rs (included by the cfg(kani) hook at the end of that file)
+// unit context: sdk/src/context.rs (included by the cfg(kani) hook at the end of that file)
+// C23: Context::check_progress is the cancellation checkpoint:
+//   Ok <=> (no callback or the callback returned true) and the cancel flag is not set; Err is OperationCancelled;
+//   the callback is invoked exactly once when present - for every step and total (loop-free: complete)
 #[allow(unused_imports)]
 use super::*;
+
+    use std::panic as sp;
+    fn stub_catch<F: FnOnce() -> R + std::panic::UnwindSafe, R>(f: F) -> std::thread::Result<R> { Ok(f()) }
+    fn stub_settings_default() -> Settings { kani::assume(false); unreachable!() }
+
+    static mut CB_RET: bool = true;
+    static mut CB_CALLS: u32 = 0;
+
+    #[kani::proof]
+    #[kani::stub(sp::catch_unwind, stub_catch)]
+    #[kani::unwind(3)]
+    fn c23_checkpoint_contract() {
+        let has_cb: bool = kani::any();
+        let cb_ret: bool = kani::any();
+        let cancelled: bool = kani::any();
+        unsafe { CB_RET = cb_ret; CB_CALLS = 0; }
+        let mut ctx = Context::default();
+        if has_cb {
+            ctx.progress_callback = Some(Box::new(|_p, s, t| { unsafe { CB_CALLS += 1; CB_RET } }));
+        }
+        if cancelled { ctx.cancel(); }
+        let step: u32 = kani::any();
+        let total: u32 = kani::any();
+        let r = ctx.check_progress(ProgressPhase::Hashing, step, total);
+        let expect_ok = (!has_cb || cb_ret) && !cancelled;
+        assert!(r.is_ok() == expect_ok);
+        if let Err(e) = &r { assert!(matches!(e, Error::OperationCancelled)); }
+        unsafe { assert!(CB_CALLS == if has_cb { 1 } else { 0 }); }
+        std::mem::forget(r); std::mem::forget(ctx);
+    }
